@@ -251,6 +251,11 @@ def friction_pairs(chk: core.Check, n):
 
 
 def run(chk: core.Check) -> int:
+    from tools import extract
+    ext = extract.main(['Code'])
+    chk.coverage['extract_digest'] = {k: v['digest'] for k, v in ext.items()}
+    chk.coverage['translated_functions'] = ext['Code']['data']
+    chk.trusted.append('tools/py2lean.py (Python subset -> Lean: assignments, list item assignment with Python index semantics, for-range loops, if, early return; floats read as exact rationals)')
     clean = chk.prove(['GeoVerif.Properties.C15'])
     quick = chk.tier == 'quick'
     direct(chk, 3000 if quick else 20000)
